@@ -92,19 +92,7 @@ func runC15(c *Ctx) {
 
 	// ---- DOLLAR
 	if dq := c.MustFunc("C15.DOLLAR", "internal/sql.dollarQuoteTag"); dq != nil {
-		lo, hi := false, false
-		for _, in := range instrs(dq, false) {
-			if bo, ok := in.(*ssa.BinOp); ok {
-				if k, ok := constInt(bo.Y); ok {
-					if k == '0' && (bo.Op == token.GEQ || bo.Op == token.LSS) {
-						lo = true
-					}
-					if k == '9' && (bo.Op == token.LEQ || bo.Op == token.GTR) {
-						hi = true
-					}
-				}
-			}
-		}
+		lo, hi := dollarTagDigitRange(dq)
 		c.Check(lo && hi, "C15.DOLLAR", "dollarQuoteTag|digits-after-first", dq.Pos(), "tags may contain digits", "dollarQuoteTag rejects digits inside a tag: $a1$…$a1$ is a string to DuckDB but stays unmasked here, so its body is scanned (and rewritten) as SQL while a path inside it is a replacement scan to DuckDB")
 	}
 
@@ -309,4 +297,21 @@ func runC15(c *Ctx) {
 		}
 		c.Check(nTail > 0 && okTail, "C15.COMMENT", "stripSQLComments|tail-dropped-only-if-unterminated", sc.Pos(), "the remainder is dropped only for a comment that never closed", "stripSQLComments can jump to the end of the input although the comment closed: the character after a comment that ends one byte before the end is removed")
 	}
+}
+
+// dollarTagDigitRange: dollarQuoteTag compares a tag byte against both ends of the digit range.
+func dollarTagDigitRange(dq *ssa.Function) (lo, hi bool) {
+	for _, in := range instrs(dq, false) {
+		if bo, ok := in.(*ssa.BinOp); ok {
+			if k, ok := constInt(bo.Y); ok {
+				if k == '0' && (bo.Op == token.GEQ || bo.Op == token.LSS) {
+					lo = true
+				}
+				if k == '9' && (bo.Op == token.LEQ || bo.Op == token.GTR) {
+					hi = true
+				}
+			}
+		}
+	}
+	return
 }
